@@ -253,6 +253,59 @@ def emit(name, fn, comment):
     return lines, sig
 
 
+
+def translate_angle(util_src):
+    """AnglePreprocessor._transform_one_ep / _inverse_transform_one_ep (pykoop/util.py): boolean-mask gathers and
+    scatters between the input columns and the (linear, cos, sin) output columns.  The four masks are fitted state
+    (angles_in_, lin_out_, cos_out_, sin_out_) and appear as parameters; cos / sin / arctan2 / unwrap are parameters."""
+    cls = [c for c in util_src.body if isinstance(c, ast.ClassDef) and c.name == 'AnglePreprocessor']
+    if not cls:
+        raise Unsupported('AnglePreprocessor not found')
+    fns = {f.name: f for f in cls[0].body if isinstance(f, ast.FunctionDef)}
+
+    def body(name):
+        if name not in fns:
+            raise Unsupported('AnglePreprocessor.' + name)
+        return [ast.unparse(x) for x in fns[name].body if not (isinstance(x, ast.Expr) and isinstance(x.value, ast.Constant))]
+    want_t = ['n_states_inputs_out = self.n_states_out_ + self.n_inputs_out_',
+              'Xt = np.zeros((X.shape[0], n_states_inputs_out))',
+              'Xt[:, self.lin_out_] = X[:, ~self.angles_in_]',
+              'Xt[:, self.cos_out_] = np.cos(X[:, self.angles_in_])',
+              'Xt[:, self.sin_out_] = np.sin(X[:, self.angles_in_])',
+              'return Xt']
+    want_i = ['n_states_inputs_in = self.n_states_in_ + self.n_inputs_in_',
+              'Xt = np.zeros((X.shape[0], n_states_inputs_in))',
+              'Xt[:, ~self.angles_in_] = X[:, self.lin_out_]',
+              'angle_values = np.arctan2(X[:, self.sin_out_], X[:, self.cos_out_])',
+              'if self.unwrap_inverse:\n    Xt[:, self.angles_in_] = np.unwrap(angle_values, axis=0)\nelse:\n    Xt[:, self.angles_in_] = angle_values',
+              'return Xt']
+    got_t, got_i = body('_transform_one_ep'), body('_inverse_transform_one_ep')
+    for nm, got, want in (('_transform_one_ep', got_t, want_t), ('_inverse_transform_one_ep', got_i, want_i)):
+        if len(got) != len(want):
+            raise Unsupported(f'AnglePreprocessor.{nm}: {len(got)} statements, the translated fragment has {len(want)}')
+        for g, w in zip(got, want):
+            if g != w:
+                raise Unsupported(f'AnglePreprocessor.{nm}: statement `{g[:100]}` (translated fragment: `{w[:100]}`)')
+    # emitted statement by statement from the matched forms: X[:, m] -> take_mask, Xt[:, m] = V -> put_mask, ~m -> neg_mask
+    return ['(* AnglePreprocessor._transform_one_ep: masks are fitted state; numpy boolean-mask gather / scatter *)',
+            'Definition gen_angle_transform (tcos tsin : T -> T) (nso nuo : nat) (angles_in lin_out cos_out sin_out : list bool)',
+            '    (X : list (list T)) : list (list T) :=',
+            '  let n_states_inputs_out := (nso + nuo)%nat in',
+            '  let Xt := (zeros_like_rows t0 X n_states_inputs_out) in',
+            '  let Xt := (put_mask lin_out (take_mask (neg_mask angles_in) X) Xt) in',
+            '  let Xt := (put_mask cos_out (map_cells tcos (take_mask angles_in X)) Xt) in',
+            '  let Xt := (put_mask sin_out (map_cells tsin (take_mask angles_in X)) Xt) in',
+            '  Xt.', '',
+            '(* AnglePreprocessor._inverse_transform_one_ep *)',
+            'Definition gen_angle_inverse (tatan2 : T -> T -> T) (unwrap0 : list (list T) -> list (list T)) (unwrap_inverse : bool)',
+            '    (ns nu : nat) (angles_in lin_out cos_out sin_out : list bool) (X : list (list T)) : list (list T) :=',
+            '  let n_states_inputs_in := (ns + nu)%nat in',
+            '  let Xt := (zeros_like_rows t0 X n_states_inputs_in) in',
+            '  let Xt := (put_mask (neg_mask angles_in) (take_mask lin_out X) Xt) in',
+            '  let angle_values := (map2_cells tatan2 (take_mask sin_out X) (take_mask cos_out X)) in',
+            '  let Xt := (if unwrap_inverse then put_mask angles_in (unwrap0 angle_values) Xt else put_mask angles_in angle_values Xt) in',
+            '  Xt.', '']
+
 def main():
     src = ast.parse(open(os.path.join(REPO, 'pykoop', 'lifting_functions.py')).read())
     classes = {c.name: {f.name: f for f in c.body if isinstance(f, ast.FunctionDef)} for c in src.body if isinstance(c, ast.ClassDef)}
@@ -296,6 +349,8 @@ def main():
         if sig != expected_sig[gname]:
             raise Unsupported(f'{cls}.{fname}: reads {sig}, the bridge expects {expected_sig[gname]}')
         out += lines + ['']
+    util_src = ast.parse(open(os.path.join(REPO, 'pykoop', 'util.py')).read())
+    out += translate_angle(util_src)
     out += ['End GenStages.', '']
     os.makedirs(OUT, exist_ok=True)
     with open(os.path.join(OUT, 'StagesGen.v'), 'w') as f:
